@@ -912,6 +912,120 @@ func propC03(r *Run, w *World) {
 			r.Check(ok, fnName(fn)+" lost definitions", ret.Pos(), "lost ∈ {0, lost + loss term}", "lost has another definition: "+why)
 		}
 	}
+	// R5
+	r.Rule("C03.R5", "lastSeq follows the deliveries: every store to lastSeq stores the sequence being evicted (the head seqs[0], directly or as the helper's parameter at every call site), every path that computes the loss difference also advances lastSeq to that sequence, and each evicting iteration accounts for its head exactly once before remove()", 4)
+	{
+		var helpers []*ssa.Function
+		for _, a := range Writes(w.FieldAccesses(x.fLastSeq)) {
+			key := "lastSeq " + a.Kind + " in " + fnName(a.Fn)
+			if a.Kind != "store" {
+				r.Fail(key, a.Instr.Pos(), "lastSeq is "+a.Kind+" here")
+				continue
+			}
+			t := Term(stripConv(a.Val))
+			switch {
+			case a.Fn == x.cleanUp || a.Fn == x.clear:
+				r.Check(t == "p0.seqs[0]", key, a.Instr.Pos(), "stores the head sequence", "lastSeq is set to "+t+", not to the sequence being evicted")
+			case a.Fn == x.newEventList:
+				r.OK(key, a.Instr.Pos(), "constructor")
+			default:
+				// helper: value must be a parameter that every call site fills with the head
+				prm, isP := stripConv(a.Val).(*ssa.Parameter)
+				okH := isP
+				if isP {
+					pi := -1
+					for i, pp := range a.Fn.Params {
+						if pp == prm {
+							pi = i
+						}
+					}
+					sites := w.CallSites(a.Fn)
+					if len(sites) == 0 {
+						okH = false
+					}
+					for _, s := range sites {
+						ci, isCall := s.Instr.(ssa.CallInstruction)
+						if !isCall || s.Kind != "static" || !(s.Caller == x.cleanUp || s.Caller == x.clear) || Term(stripConv(ci.Common().Args[pi])) != "p0.seqs[0]" {
+							okH = false
+						}
+					}
+				}
+				r.Check(okH, key, a.Instr.Pos(), "helper stores its parameter; every caller passes the head sequence", "lastSeq is set to "+t+" in "+fnName(a.Fn)+", which is not the evicted head at every call site")
+				seen := false
+				for _, h := range helpers {
+					if h == a.Fn {
+						seen = true
+					}
+				}
+				if !seen {
+					helpers = append(helpers, a.Fn)
+				}
+			}
+		}
+		// every path computing the difference advances lastSeq
+		for _, sb := range subs {
+			fn := sb.Parent()
+			ps, _ := Paths(fn, PathOpts{MaxVisit: 2})
+			okAdv := true
+			n := 0
+			for _, p := range ps {
+				if p.order(sb) < 0 || p.End == "cut" {
+					continue
+				}
+				n++
+				adv := false
+				for _, e := range p.Events {
+					if st, ok := e.Instr.(*ssa.Store); ok && e.Kind == EvStore {
+						if fa, ok := st.Addr.(*ssa.FieldAddr); ok && fieldOfAddr(fa) == x.fLastSeq && p.order(st) > p.order(sb) {
+							adv = true
+						}
+					}
+				}
+				if !adv {
+					okAdv = false
+				}
+			}
+			r.Check(okAdv && n > 0, fnName(fn)+" difference ⇒ advance", sb.Pos(), "lastSeq advanced after the difference is taken", "a path counts a gap without advancing lastSeq: the same gap is counted again on the next delivery")
+		}
+		// each evicting iteration accounts exactly once, before remove()
+		for _, fn := range []*ssa.Function{x.cleanUp, x.clear} {
+			loops := NaturalLoops(fn)
+			if len(loops) != 1 {
+				continue
+			}
+			ps, _ := IterationPaths(fn, loops[0])
+			for i, p := range ps {
+				if p.End != "stop" {
+					continue
+				}
+				acc := 0
+				firstAcc := -1
+				for _, e := range p.Events {
+					if st, ok := e.Instr.(*ssa.Store); ok && e.Kind == EvStore {
+						if fa, ok := st.Addr.(*ssa.FieldAddr); ok && fieldOfAddr(fa) == x.fLastSeq {
+							acc++
+							if firstAcc < 0 {
+								firstAcc = p.order(st)
+							}
+						}
+					}
+					if c, ok := e.Instr.(*ssa.Call); ok && e.Kind == EvCall {
+						for _, h := range helpers {
+							if c.Call.StaticCallee() == h {
+								acc++
+								if firstAcc < 0 {
+									firstAcc = p.order(c)
+								}
+							}
+						}
+					}
+				}
+				rm := p.Calls(x.remove)
+				okI := acc == 1 && len(rm) == 1 && firstAcc < p.order(rm[0].Instr)
+				r.Check(okI, fmt.Sprintf("%s iteration#%d accounts once", fnName(fn), i), fn.Pos(), "", fmt.Sprintf("an evicting iteration accounts for its head %d times (want once, before remove()): %s", acc, compactPath(p)))
+			}
+		}
+	}
 	// R4 siblings
 	r.Rule("C03.R4", "siblings agree: the loss computation and lastSeq update of an evicting iteration are the same event sequence in Clear and in CleanUp", 1)
 	norm := func(fn *ssa.Function) []string {
@@ -1625,6 +1739,29 @@ func propC11(r *Run, w *World) {
 				r.Undecided(key, in.Pos(), "call to "+n+" while holding the eventList mutex is not in the reviewed table (cannot rule out blocking or re-entry)")
 			}
 		})
+	}
+
+	r.Rule("C11.R6", "results handed out of the lock are detached: what CleanUp/Clear return is accumulated from nil by append only (never a view of a field guarded by the mutex), so callback reads memory no later locked section writes", 2)
+	for _, fn := range []*ssa.Function{x.cleanUp, x.clear} {
+		for _, ret := range returnsOf(fn) {
+			vals := returnedValues(ret)
+			ok := len(vals) == 2
+			why := ""
+			if ok {
+				leaves, _ := phiLeaves(vals[0])
+				for _, lf := range leaves {
+					if isNilConst(lf) {
+						continue
+					}
+					if c, isApp := isAppendCall(lf); isApp && c.Parent() == fn {
+						continue
+					}
+					ok = false
+					why = Term(lf)
+				}
+			}
+			r.Check(ok, fnName(fn)+" returns a detached slice", ret.Pos(), "nil + append only", "the evicted slice handed to the callback shares storage with "+why+": a later CleanUp/Clear overwrites it while callback (outside the lock) still reads it")
+		}
 	}
 
 	r.Rule("C11.R4", "one Close wins: flush and nil only on the true edge of CompareAndSwapInt32(&closed, 0, 1), the error on the other", 2)
